@@ -1395,6 +1395,11 @@ class BuiltinMixin(object):
     sub = z3.SubString(args[0].t, 0, 8)
     return [(st, VBool(z3.And(ishex(sub), z3.Length(sub) == 8)))]
 
+  def x_collections_defaultdict(self, st, args, kwargs):
+    d = VPyDict_()({})
+    d.default = args[0] if args else None
+    return [(st, d)]
+
   def x_os_path_basename(self, st, args, kwargs):
     return [(st, VStr(z3.Function('basename', z3.StringSort(), z3.StringSort())(args[0].t)))]
 
